@@ -49,8 +49,9 @@ def W(key, n=1):
     return bytes([C['OP_WRITE_CACHE'], len(key)]) + key + bytes([n])
 
 
-CTX = ['IF', 'IFELSE_T', 'IFELSE_E', 'TRY', 'EXCEPT', 'LOOP', 'DEFCALL', 'EVAL', 'MERKLEVAL', 'TAPROOT']
-CALLLIKE = {'DEFCALL', 'EVAL', 'MERKLEVAL', 'TAPROOT'}
+CTX = ['IF', 'IFELSE_T', 'IFELSE_E', 'TRY', 'EXCEPT', 'LOOP', 'DEFCALL', 'EVAL', 'MERKLEVAL', 'TAPROOT', 'SELFCALL']
+CALLLIKE = {'DEFCALL': 1, 'EVAL': 1, 'MERKLEVAL': 1, 'TAPROOT': 1, 'SELFCALL': 2}
+_SELF_N = [0]
 
 
 def wrap(ctx, body):
@@ -70,6 +71,16 @@ def wrap(ctx, body):
         return op('OP_TRUE') + op('OP_LOOP') + L2(b) + b + op('OP_POP0')
     if ctx == 'DEFCALL':
         return op('OP_DEF', 7) + L2(body) + body + op('OP_CALL', 7)
+    if ctx == 'SELFCALL':
+        # a function that calls itself from its own body level (the `if { return } call d0` idiom); the body proper runs
+        # once, in the outer invocation, after the inner one has returned
+        _SELF_N[0] = (_SELF_N[0] + 1) % 200
+        g = b'g%d' % (len(body) % 251)
+        h = 20 + len(body) % 200
+        guard = (bytes([C['OP_READ_CACHE_SIZE'], len(g)]) + g + push(b'\x01') + op('OP_EQUAL') + op('OP_IF') + L2(op('OP_RETURN')) +
+                 op('OP_RETURN') + op('OP_TRUE') + W(g) + op('OP_CALL', h))
+        fn = guard + body
+        return op('OP_DEF', h) + L2(fn) + fn + op('OP_CALL', h)
     if ctx == 'EVAL':
         return push(body) + op('OP_EVAL')
     if ctx == 'MERKLEVAL':
@@ -256,6 +267,8 @@ def judge(pname, word, cfgname, _attr=True):
 
     def bad(what, detail=''):
         fails.append(('config/%s/%s' % (kind, what), '%s %s (err %r)' % (where, detail, r['err'])))
+    if kind == 'calllimit' and sum(CALLLIKE.get(w, 0) for w in word) >= (6 if cfgname == 'limit6' else 9):
+        return []         # the context alone uses up the call budget: nothing to observe
     if kind not in ('noeval',) and r['err'] is not None and not (kind == 'evalreturn'):
         bad('probe-raised', '')
         return fails
@@ -303,7 +316,7 @@ def judge(pname, word, cfgname, _attr=True):
             bad('contract-not-reachable', 'CHECK_TRANSFER calls %d result %r' % (r['tr'], c.get(b'tr')))
     elif kind == 'calllimit':
         limit = 6 if cfgname == 'limit6' else 9
-        used = sum(1 for w in word if w in CALLLIKE)
+        used = sum(CALLLIKE.get(w, 0) for w in word)
         want = max(0, limit - used)
         got = c.get(b'd')
         gotn = int.from_bytes(got[0], 'big') if got else None
